@@ -231,36 +231,37 @@ Definition uint_of_Z (z : Z) : Z := if (z <? 0)%Z then (18446744073709551616 + z
 
 Definition step_fuel : nat := 2000.
 
-(* the Bresenham-like loop, as written (including `cellX = min(cellY, rows-1)`) *)
+(* clampCell: a cell coordinate to an index of a row or column of [n] cells *)
+Definition clamp_cell (z : Z) (n : nat) : nat :=
+  if (z <=? 0)%Z then 0%nat else if (Z.of_nat n - 1 <? z)%Z then (n - 1)%nat else Z.to_nat z.
+
+(* the Bresenham-like loop (cell indices clamped into the grid, as the code does since the repair of F4) *)
 Fixpoint step_loop (fuel : nat) (g : grid) (r : ray) (fx fz dx dz : Q) (dtx dty : dlt) (t : Q) : ires :=
   match fuel with
   | O => IPanic                      (* not reached for bounded inputs; see step_fuel *)
   | S fuel' =>
       let hx := fx + dx * t in
       let hz := fz + dz * t in
-      let cellY := uint_of_Z (cellz g hz) in
-      let cellX := Z.min cellY (Z.of_nat (nrows g) - 1) in     (* the double clamp, as written *)
-      if (Z.of_nat (nrows g) <=? cellY)%Z then IPanic
-      else if (Z.of_nat (length (nth (Z.to_nat cellY) (g_cells g) [])) <=? cellX)%Z then IPanic
-      else
-        let '(best, tmin) := scan_cell r (g_planes g) (get_cell (g_cells g) (Z.to_nat cellY) (Z.to_nat cellX)) None PInf in
-        match best with
-        | Some id => IRes (Some id) tmin
-        | None =>
-            (* if t+deltaTX < t+deltaTY { t += deltaTX } else { t += deltaTY } *)
-            let next :=
-              match dtx, dty with
-              | DFin a, DFin b => if Qlt_bool a b then Some (t + a) else Some (t + b)
-              | DFin a, DInf => Some (t + a)
-              | DFin _, DNaN => None
-              | _, DFin b => Some (t + b)
-              | _, _ => None
-              end in
-            match next with
-            | None => miss                      (* t became Inf or NaN *)
-            | Some t' => if Qlt_bool 1 t' then miss else step_loop fuel' g r fx fz dx dz dtx dty t'
-            end
-        end
+      let cellX := clamp_cell (cellx g hx) (ncols g) in
+      let cellY := clamp_cell (cellz g hz) (nrows g) in
+      let '(best, tmin) := scan_cell r (g_planes g) (get_cell (g_cells g) cellY cellX) None PInf in
+      match best with
+      | Some id => IRes (Some id) tmin
+      | None =>
+          (* if t+deltaTX < t+deltaTY { t += deltaTX } else { t += deltaTY } *)
+          let next :=
+            match dtx, dty with
+            | DFin a, DFin b => if Qlt_bool a b then Some (t + a) else Some (t + b)
+            | DFin a, DInf => Some (t + a)
+            | DFin _, DNaN => None
+            | _, DFin b => Some (t + b)
+            | _, _ => None
+            end in
+          match next with
+          | None => miss                      (* t became Inf or NaN *)
+          | Some t' => if Qlt_bool 1 t' then miss else step_loop fuel' g r fx fz dx dz dtx dty t'
+          end
+      end
   end.
 
 Definition intersect_step (g : grid) (r : ray) : ires :=
@@ -452,6 +453,9 @@ Definition get_region (g : grid) (lo hi : vec) : list nat :=
   let loz := Qmax (vz lo) (inject_Z (g_minz g)) in
   let hix := Qmin (vx hi) (inject_Z (g_maxx g)) in
   let hiz := Qmin (vz hi) (inject_Z (g_maxz g)) in
+  (* a region that does not meet the grid is empty *)
+  if negb (Qle_bool lox hix && Qle_bool loz hiz) then []
+  else
   let x0 := Z.to_nat (cellx g lox) in let y0 := Z.to_nat (cellz g loz) in
   let x1 := Z.to_nat (cellx g hix) in let y1 := Z.to_nat (cellz g hiz) in
   dedup [] (flat_map (fun y => flat_map (fun x => get_cell (g_cells g) y x) (range_excl x0 x1))
